@@ -90,11 +90,19 @@ def substitution_order_for_one_key():
         def lower(self):
             return low
 
-    def sub(pattern, template, text):
+    limits = []
+
+    def sub(pattern, template, text, count=0, flags=0):
         log.append((pattern, template, text))
+        limits.append((count, flags))
         return Out(len(log))
     fake_re = _NS()
     fake_re.sub = sub
+    # the flag constants of the real module (a caller may name them)
+    import re as _real_re
+    for _flag in ('DOTALL', 'IGNORECASE', 'MULTILINE', 'VERBOSE', 'ASCII',
+                  'UNICODE', 'S', 'I', 'M', 'X', 'A', 'U'):
+        setattr(fake_re, _flag, int(getattr(_real_re, _flag)))
     model(S, 're', fake_re)
     # the same stand-in for the method spelling pattern.sub(template, text)
     regex_hook(['sub'], lambda pat, name, args: sub(pat, args[0], args[1]))
@@ -112,6 +120,8 @@ def substitution_order_for_one_key():
         want.append((p, r'\g<1>'))
     check('body/all-patterns-of-the-key-in-order-with-their-templates',
           [(a, b) for (a, b, _c) in log] == want)
+    check('body/every-occurrence-is-replaced-no-count-no-flags',
+          all([c == (0, 0) for c in limits]))
     check('body/each-step-works-on-the-previous-result',
           log[0][2] is message and all(
               [log[i][2].n == i for i in range(1, len(log))]))
@@ -271,6 +281,17 @@ def end_to_end_family():
         got = S.mask_password(msg)
         check('e2e/two-secrets', got == render(h1, k1, '***') + ' and '
               + render(h2, k2, '***'), detail=(msg, got))
+    # many secrets of one key in one message (every occurrence, not the
+    # first few)
+    for how in ('bare', 'dq', 'xml', 'dashdash'):
+        for n in (17, 40):
+            key = r.choice(KEYS)
+            parts = [render(how, key, 'sec%dret' % i) for i in range(n)]
+            msg = ' ; '.join(parts)
+            want = ' ; '.join([render(how, key, '***')] * n)
+            got = S.mask_password(msg)
+            check('e2e/every-occurrence-masked', got == want,
+                  detail=(how, key, n, got[:200]))
     # key-free messages
     neutral = ['', 'hello world', 'user=bob id=7', '{"a": "b", "c": 1}',
                "<x>y</x> --flag v 'q': 'r'", 'pass word tok en secr et',
